@@ -1,6 +1,7 @@
 """C07 -- applying a rewrite replaces only the match and leaves a valid, equivalent graph (DESIGN.md section 5, C07).
 
-Proof:   coq/Rewrite/Apply.v (model), ApplyProofs.v, ApplyExamples.v, Props/C07.v.
+Proof:   coq/Rewrite/Apply.v (model), ApplyProofs.v (splice, commutation, congruence, frame), KeepProofs.v (keeping rules),
+         PassProofs.v (nesting, passes, iteration, replay checker), ApplyExamples.v, Props/C07.v.
 Tie:     generated rules whose replacement equals the pattern by construction are applied with the REAL rewriter
          (onnxscript.rewriter.rewrite) to generated hosts; every splice the implementation performs is logged
          (harness/c07_trace.py) and replayed inside Coq through the model (`check_host`): the replay must reproduce
@@ -363,7 +364,7 @@ def eval_host(ctx, label, host, families, rng, stream="gen", want_ref=True, chec
     if exc is not None:
         res.exc = exc
         chain = _exc_chain(exc)
-        msg = " | ".join(f"{type(e).__name__}: {str(e)[:160]}" for e in chain)
+        msg = re.sub(r"0x[0-9a-f]+", "0x..", " | ".join(f"{type(e).__name__}: {str(e)[:160]}" for e in chain))
         if any(isinstance(e, G.Budget) for e in chain):
             res.violations.append((f"C07:{stream}:does-not-terminate:{fam_key}", "a guarded rule was applied over and over: " + msg))
         elif any("still being used by other nodes" in str(e) for e in chain) and any(i["var_is_intermediate"] for i in inst):
@@ -850,7 +851,7 @@ def stream_targeted(ctx):
         try:
             new = rewriter.rewrite(copy.deepcopy(m), rules)
         except Exception as e:
-            ctx.violation(key, f"{what}: rewrite() raised {' | '.join(type(c).__name__ + ': ' + str(c)[:120] for c in _exc_chain(e))}", replay)
+            ctx.violation(key, re.sub(r"0x[0-9a-f]+", "0x..", f"{what}: rewrite() raised {' | '.join(type(c).__name__ + ': ' + str(c)[:120] for c in _exc_chain(e))}"), replay)
             return None
         problems = []
         try:
